@@ -691,7 +691,16 @@ func vfCorpusC09() []*vfWorldCase {
 			vfAction{Kind: "tamper", Browser: 1, Tamper: "copy", Name: "m", From: 0}, vfGated(1, 0, "/b", 1))
 		return &vfWorldCase{Kind: "corpus", Script: vfScript{Cfg: vfWorldCfg{EndSession: true, GraceSec: 60, LongKeys: long}, Browsers: 2, Actions: acts}}
 	}
-	return append(vfCorpusC07(), swap("a", "r"), swap("m", "a"), swap("r", "m"), other(false), other(true))
+	// an outsider who only knows the plugin's public fall-back key mints a session; the deployment (configured with its
+	// own key) is rebuilt from the same configuration object in between
+	pub := func() *vfWorldCase {
+		tk := vfPlainTok("mallory@example.com", 3600)
+		acts := append(vfLogin(1, 0, "/b", sc), vfAction{Kind: "newinst", Slot: 0}, vfGated(1, 0, "/b", 1),
+			vfAction{Kind: "mint", Browser: 0, Mint: &vfMintSpec{Auth: true, Email: "mallory@example.com", Tok: tk, RefreshLen: 24, KeyB: true}},
+			vfGated(0, 0, "/app", 1), vfAction{Kind: "newinst", Slot: 0}, vfGated(0, 0, "/app/2", 1), vfGated(1, 0, "/b", 1))
+		return &vfWorldCase{Kind: "corpus", Script: vfScript{Cfg: vfWorldCfg{EndSession: true, GraceSec: 60, ForeignDefaultKey: true}, Browsers: 2, Actions: acts}}
+	}
+	return append(vfCorpusC07(), swap("a", "r"), swap("m", "a"), swap("r", "m"), other(false), other(true), pub())
 }
 
 // ---------------------------------------------------------------- C10: identity headers
